@@ -71,19 +71,16 @@ mod verif_kani_funcs {
         is_int(math::round::round(CelValue::Null, vec![CelValue::Int(n)]), n);
     }
     #[kani::proof]
-    fn math_sqrt_double() { let f: f64 = kani::any(); let r = math::sqrt::sqrt(CelValue::Null, vec![CelValue::Float(f)]); is_float_bits(r, f.sqrt()) }
-    #[kani::proof]
-    #[kani::unwind(8)]
-    fn math_pow_int_small_exponent() {
-        let b: i64 = kani::any(); let e: i64 = kani::any();
-        kani::assume(e < 4);
-        let r = math::pow::pow(CelValue::Null, vec![CelValue::Int(b), CelValue::Int(e)]);
-        if e < 0 { is_error(r) } else {
-            let mut exact: i128 = 1; let mut k = 0; while k < e { exact = exact * (b as i128); k += 1; }
-            if exact >= i64::MIN as i128 && exact <= i64::MAX as i128 { is_int(r, exact as i64) } else { is_error(r) }
-        }
+    #[kani::unwind(4)]
+    fn math_pow_int_square() {
+        // exponent 2 (concrete): exact or error
+        let b: i64 = kani::any();
+        let r = math::pow::pow(CelValue::Null, vec![CelValue::Int(b), CelValue::Int(2)]);
+        let exact = (b as i128) * (b as i128);
+        if exact <= i64::MAX as i128 { is_int(r, exact as i64) } else { is_error(r) }
     }
     #[kani::proof]
+    #[kani::unwind(2)]
     fn math_pow_int_negative_or_huge_exponent_is_error() {
         let b: i64 = kani::any(); let e: i64 = kani::any();
         kani::assume(e < 0 || e > u32::MAX as i64);
